@@ -4,9 +4,12 @@ import torch
 class PipelineModule(torch.nn.Module):
     """Holds the layers of THIS rank's pipeline stage and the 3-D topology."""
 
-    def __init__(self, layers, topology=None, num_stages=None):
+    def __init__(self, layers, topology=None, num_stages=None, layer_offset=0):
         super().__init__()
-        self.forward_funcs = torch.nn.ModuleList(list(layers))
+        # DeepSpeed registers each layer of the stage under its GLOBAL index in the full layer list
+        self.forward_funcs = list(layers)
+        for i, layer in enumerate(self.forward_funcs):
+            self.add_module(str(layer_offset + i), layer)
         self._topo = topology
         self.num_stages = num_stages if num_stages is not None else (
             topology.get_dim('pipe') if topology is not None else 1)
